@@ -114,6 +114,13 @@ class C12(Plugin):
                       [text, "complete"]):
             out.append({"k": 3, "calls": [first, [text, "complete"], [style_open, "complete"], [text, "complete"]]})
             out.append({"k": 3, "calls": [first, first, [text, "strict"]]})
+        # "whatever other parses run concurrently in other threads": two threads inside html5lib.parse() /
+        # parseFragment() at the same time, their sources handing the turn to each other after every read
+        for a, b in (("<!DOCTYPE html><title>A</title><p>first document<b>x", "<table><tr><td>second<td>document</table>tail"),
+                     ("<ul><li>1<li>2<li>3</ul>", "<svg><g><circle r=1></g></svg><p>q"), ("plain text only", "<frameset><frame>")):
+            for frag in (False, True):
+                for tb in ("dom", "etree"):
+                    out.append({"k": 4, "docs": [a, b], "frag": frag, "tb": tb})
         # module-level caches: tree builder modules requested with different keyword values, in every order,
         # each sequence in ONE fresh interpreter ("what a brand-new object in a fresh interpreter returns")
         for order in ([True, False], [False, True], [None, True, False], [True, None, False, True], [False, False, True]):
@@ -217,6 +224,44 @@ class C12(Plugin):
             r = subprocess.run([sys.executable, "-c", prog, json.dumps(case["order"])], capture_output=True, text=True,
                                timeout=60, env=env)
             return [json.loads(r.stdout) if r.returncode == 0 else r.stderr[-300:], []]
+        if case["k"] == 4:
+            import threading
+
+            def enc(doc):
+                forest = trees.dom_forest(doc) if hasattr(doc, "childNodes") else trees.et_forest(doc)
+                return trees.enc_forest(trees.coalesce(forest))
+            fn = html5lib.parseFragment if case["frag"] else html5lib.parse
+            kw = {"treebuilder": case["tb"]}
+            alone = [enc(fn(d, **kw)) for d in case["docs"]]
+            turns = [threading.Event(), threading.Event()]
+            turns[0].set()
+
+            class Paced(object):
+                def __init__(self, text, me):
+                    self.s, self.me = text, me
+
+                def read(self, n=-1):
+                    if n == 0:
+                        return ""           # the type probe of the input stream
+                    turns[self.me].wait(0.05)
+                    turns[self.me].clear()
+                    out, self.s = self.s[:5], self.s[5:]
+                    turns[1 - self.me].set()
+                    return out
+            together = [None, None]
+
+            def run(i):
+                try:
+                    together[i] = enc(fn(Paced(case["docs"][i], i), **kw))
+                except Exception as e:
+                    together[i] = "exception: %s" % type(e).__name__
+                turns[1 - i].set()
+            ts = [threading.Thread(target=run, args=(i,)) for i in (0, 1)]
+            for t in ts:
+                t.start()
+            for t in ts:
+                t.join(20)
+            return [alone == together, [together[i] if together[i] != alone[i] else "" for i in (0, 1)]]
         if case["k"] == 3:
             from html5lib.serializer import HTMLSerializer, SerializeError
 
@@ -268,6 +313,8 @@ class C12(Plugin):
             return [("reused-parser-differs-from-fresh", repr((case["calls"], out[1])))]
         if case["k"] == 3 and out[1]:
             return [("reused-serializer-differs-from-fresh", repr(out[1])[:600])]
+        if case["k"] == 4 and not out[0]:
+            return [("concurrent-parses-interfere", repr(out[1])[:600])]
         if case["k"] == 2:
             want = [["DOCUMENT_ROOT", 3] if ft else ["html", 2] for ft in case["order"]]
             if out[0] != want:
